@@ -493,7 +493,24 @@ class Sut(object):
     # -- C02
     def audit_C02(self, rng, out, dec, owner, byw):
         t, m = self.t, self.m
-        trie = t.lru_trie
+        trie = getattr(t, "lru_trie", None)
+        if trie is None or not all(hasattr(trie, n) for n in ("dfs_iter", "lru_node", "windup_lru")):
+            # the three access paths were renamed: the monitor reports itself absent; the decoder part
+            # below and the public-API part (get_webentity_by_prefix on every attached prefix) carry on
+            self.stats["C02_access_paths_absent"] += 1
+            for p_, g in m.we.items():
+                try:
+                    w = t.get_webentity_by_prefix(p_)
+                except TraphException:
+                    w = None
+                if self.tr(w) != g:
+                    out.append(D(["C02", "C04"], "get_webentity_by_prefix", lru=p_, got=w, expected_gid=g))
+                    break
+            if dec is not None:
+                self.structural(dec, out, ["C02"], ("S1", "S2", "S3", "S4", "S5"))
+                if set(dec.lrus) != m.nodes and not dec.errors:
+                    out.append(D(["C02"], "decoder-lrus", missing=sorted(m.nodes - set(dec.lrus))[:5], extra=sorted(set(dec.lrus) - m.nodes)[:5]))
+            return
         listed = [lru for _, lru in trie.dfs_iter()]
         self.stats["C02_nodes_compared"] += len(m.nodes)
         if Counter(listed) != Counter(m.nodes):
